@@ -394,9 +394,65 @@ def ascii_harnesses():
     return hs
 
 
+def iter_harnesses():
+    hs = []
+    # (k-mer tag, container lengths): lengths below K, == K, and up to K+3
+    plan = [("kmer3", (0, 2, 3, 4, 6), True), ("kmer4", (3, 4, 7), True), ("kmer5", (5, 8), False), ("kmer8", (8, 11), False)]
+    fns = {"dnaslice": ["DnaSlice::get_kmer", "DnaSlice::get"], "dnabytes": ["DnaBytes::get_kmer", "DnaBytes::get", "DnaBytes::set_mut"],
+           "dnastring": ["DnaString::get_kmer", "DnaString::from_bytes"], "lmer": ["Lmer::get_kmer", "Vmer::from_slice"]}
+    for tag, lens, q in plan:
+        ty, k = KT_BY_TAG[tag][1], KT_BY_TAG[tag][2]
+        for n in lens:
+            for cont in ("dnaslice", "dnabytes", "dnastring", "lmer"):
+                quick = q and (cont == "dnaslice" or n in (4, 6, 7))
+                hs.append(H("c13_iter_%s__%s__n%d" % (cont, tag, n), ["C13"] + (["C05", "C06"] if cont == "dnaslice" else []),
+                            "crate::iter_ops::%s::<%s, %d>()" % (cont, ty, n), unwind=max(n, 34) + 4, cap=600,
+                            stubs=["S1"], tier="quick" if quick else "thorough",
+                            funcs=["Vmer::iter_kmers", "KmerIter::next", "Vmer::iter_kmer_exts", "KmerExtsIter::next", "Kmer::extend_right"] + fns[cont],
+                            bounds="all base strings of length %d (K=%d), all 256 boundary extension sets" % (n, k)))
+            if n >= 1:
+                hs.append(H("c13_iter_slice__%s__n%d" % (tag, n), ["C13", "C15"],
+                            "crate::iter_ops::dnastringslice::<%s, %d, %d>()" % (ty, n, n + 2), unwind=max(n, 34) + 6, cap=600,
+                            tier="quick" if (q and n in (4, 7)) else "thorough",
+                            funcs=["Vmer::iter_kmers", "Vmer::iter_kmer_exts", "DnaStringSlice::get_kmer", "DnaStringSlice::rc"],
+                            bounds="all strings of length %d, interior slice of length %d, forward and reverse-complemented" % (n + 2, n)))
+            hs.append(H("c13_kmers_from__%s__n%d" % (tag, n), ["C13", "C16"],
+                        "crate::iter_ops::kmers_from::<%s, %d, %d>()" % (ty, n, n + 1), unwind=n + 6, cap=600, stubs=["S1"],
+                        tier="quick" if q and n in (2, 4, 6, 7) else "thorough",
+                        funcs=["Kmer::kmers_from_bytes", "Kmer::kmers_from_ascii", "base_to_bits"],
+                        bounds="all inputs of length %d (K=%d): bases < 4 / all 256 byte values" % (n, k)))
+    return hs
+
+
+def msp_harnesses():
+    hs = []
+    for k, ns in ((2, (2, 3, 4, 5)), (3, (3, 4, 5, 6)), (4, (4, 5, 6))):
+        for n in ns:
+            heavy = (n - k) >= 2 and k >= 3
+            hs.append(H("c07_scan__n%d_k%d" % (n, k), ["C07"], "crate::msp_ops::scan::<%d, %d>()" % (n, k), unwind=n + 6,
+                        cap=900, mem=20, stubs=["S1", "S2"], tier="thorough" if (n, k) in ((6, 3), (6, 4), (5, 3)) else "quick",
+                        funcs=["Scanner::new", "Scanner::scan", "Scanner::mp", "Scanner::incr", "MinPos::cmp", "DnaSlice::get_kmer", "Kmer::extend_right"],
+                        bounds="all reads of %d bases, k=%d, P=Kmer2, all score tables over the 16 2-mers (ties and constants included)" % (n, k)))
+    for k, ns in ((3, (3, 4, 5)), (4, (4, 5))):
+        for n in ns:
+            hs.append(H("c08_shard_perm__n%d_k%d" % (n, k), ["C08"], "crate::msp_ops::shard::<%d, %d, true>()" % (n, k), unwind=20,
+                        cap=900, mem=20, stubs=["S1", "S2"], tier="quick" if n - k <= 0 else "thorough",
+                        funcs=["msp_sequence", "Scanner::scan", "MspIntervalP::bucket", "Kmer::min_rc", "Exts::from_slice_bounds", "Vmer::from_slice"],
+                        bounds="all reads of %d bases, k=%d, P=Kmer2, all injective permutation tables, rc mode on and off" % (n, k)))
+    for k, ns in ((3, (5, 6)), (4, (4, 5, 6))):
+        for n in ns:
+            hs.append(H("c08_shard_default__n%d_k%d" % (n, k), ["C08"], "crate::msp_ops::shard::<%d, %d, false>()" % (n, k), unwind=20,
+                        cap=900, mem=20, stubs=["S1", "S2"], tier="quick" if n - k <= 0 else "thorough",
+                        funcs=["msp_sequence", "Scanner::scan", "MspIntervalP::bucket", "Kmer::min_rc", "Exts::from_slice_bounds", "Vmer::from_slice"],
+                        bounds="all reads of %d bases, k=%d, P=Kmer2, default permutation, rc mode on and off" % (n, k)))
+    return hs
+
+
 def all_harnesses():
     hs = []
     hs += kmer_harnesses()
+    hs += msp_harnesses()
+    hs += iter_harnesses()
     hs += ascii_harnesses()
     hs += graph_harnesses()
     hs += slice_harnesses()
